@@ -255,8 +255,7 @@ func (r *Run) teardown() {
 		if len(r.DhtGoroutines()) == 0 {
 			break
 		}
-		r.Sleep(time.Minute)
-		r.Settle()
+		r.Advance(time.Minute)
 		r.Drain()
 	}
 	if r.NoLeakCheck || r.Failed() {
